@@ -66,6 +66,13 @@ def find_per_rank_trim(m, db=None):
     return q2
 
 
+def _per_rank_or_none(m, db):
+    try:
+        return find_per_rank_trim(m, db)
+    except AnalysisError:
+        return None
+
+
 def check_trim(db, chk, rule: str) -> None:
     """per-rank trimming of the trailing profiler step (also C02: the links written at parse time survive the trim -
     a device activity is kept iff its launch call is kept)"""
@@ -74,7 +81,13 @@ def check_trim(db, chk, rule: str) -> None:
     # ------------------------------------------------------------------ trimming, per rank
     TR = ("param", "TR")
     # the per-rank trim is found by ROLE: the callee of _filter_irrelevant_gpu_kernels (nested closure or method) that applies both side filters
-    q2 = find_per_rank_trim(m, db)
+    try:
+        q2 = find_per_rank_trim(m, db)
+    except AnalysisError:
+        q2 = None          # the per-rank work is written out inside the loop over the ranks: the whole method is evaluated for one rank instead
+    whole = q2 is None
+    if whole:
+        q2 = "Trace._filter_irrelevant_gpu_kernels"
     ref2 = f"{TM}:{q2}"
     f2 = m.func(q2)
     where2 = m.loc(f2)
@@ -83,6 +96,32 @@ def check_trim(db, chk, rule: str) -> None:
     for inc in (False, True):
         I = Interp(db, decide=assume(("hascol", TR, "stream")))
         self_obj = lambda: Obj("self", cls=(m, "Trace"), attrs={"symbol_table": Obj("symtab", cls=(st, "TraceSymbolTable"))})
+        if whole:
+            # one rank, a symbol table with at least two step names (the guard is a rule of its own): the trimmed frame is what is stored back under the rank
+            RK = T.P("RANK")
+            I = Interp(db, decide=lambda c, _a=assume(("hascol", TR, "stream")): (_a(c) if _a(c) is not None else (False if (isinstance(c, tuple) and c and c[0] == "cmp" and c[1] in ("<", "<=") and "len(" in T.show(c)) else
+                                                                                                     True if (isinstance(c, tuple) and c and c[0] == "cmp" and c[1] in (">", ">=") and "len(" in T.show(c)) else None)))
+            so = self_obj()
+            so.attrs["traces"] = {RK: Frame(TR)}
+            incp = next((p_ for p_ in H.param_names(f2) if "include" in p_ or "last" in p_), None)
+            wr = [r for r in I.explore(ref2, lambda I: {"self": so, **({incp: inc} if incp else {})}) if r.raised is None]
+            outs = []
+            for r in wr:
+                tr_ = r.env["self"].attrs.get("traces") if isinstance(r.env.get("self"), Obj) else None
+                fr_ = tr_.get(RK) if isinstance(tr_, dict) else None
+                if isinstance(fr_, Frame) and isinstance(fr_.base, tuple) and fr_.base and fr_.base[0] == "concat":
+                    outs.append(fr_)
+            tag = f"[include_last={inc}]"
+            if len(outs) != 1:
+                chk.ob(rule, f"{tag} trim written out in the method: one path storing concat(device part, host part) under the rank", None, where2, found=len(outs))
+                continue
+            R = outs[0]
+            ins = [x for x in T.subterms(R.base) if isinstance(x, tuple) and len(x) == 3 and x[0] == "in" and x[1] == T.col(TR, "name")]
+            stepsets = {x[2] for x in ins if "ProfilerStep" in T.show(x[2])}
+            if len(stepsets) != 1:
+                chk.ob(rule, f"{tag} the step rows are selected by one name set", None, where2, found=[T.show(x)[:120] for x in stepsets])
+                continue
+            STEPS = next(iter(stepsets))
 
         def role_args(I, inc=inc):
             out = {}
@@ -98,14 +137,15 @@ def check_trim(db, chk, rule: str) -> None:
                 else:
                     raise AnalysisError(f"{q2}: role of parameter {p_} not recognised")
             return out
-        runs = I.explore(ref2, role_args,
-                         lambda I: {"self": self_obj(), "profiler_steps": STEPS, "include_last_profiler_step": inc})
-        runs = [r for r in runs if r.raised is None and isinstance(r.ret, Frame)]
-        tag = f"[include_last={inc}]"
-        if len(runs) != 1 or runs[0].ret.base[0] != "concat":
-            chk.ob(rule, f"{tag} per-rank trim: one path returning concat(device part, host part)", None, where2, found=len(runs))
-            continue
-        R = runs[0].ret
+        if not whole:
+            runs = I.explore(ref2, role_args,
+                             lambda I: {"self": self_obj(), "profiler_steps": STEPS, "include_last_profiler_step": inc})
+            runs = [r for r in runs if r.raised is None and isinstance(r.ret, Frame)]
+            tag = f"[include_last={inc}]"
+            if len(runs) != 1 or runs[0].ret.base[0] != "concat":
+                chk.ob(rule, f"{tag} per-rank trim: one path returning concat(device part, host part)", None, where2, found=len(runs))
+                continue
+            R = runs[0].ret
         parts = [p for k, p in R.base[2]]
         joins = [p for p in parts if isinstance(p, tuple) and isinstance(p[0], tuple) and p[0] and p[0][0] == "join"]
         hosts = [p for p in parts if isinstance(p, tuple) and p[0] == TR]
@@ -200,13 +240,15 @@ def check_trim_guard(db, chk, rule: str) -> None:
     f3 = m.func("Trace._filter_irrelevant_gpu_kernels")
     calls = []
 
+    per_rank = _per_rank_or_none(m, db)          # None: the trim is written out inside the loop over the ranks
+
     def hook(I, name, pos, kw, node):
-        if name.split(".")[-1] == find_per_rank_trim(m, db).split(".")[-1]:
+        if per_rank is not None and name.split(".")[-1] == per_rank.split(".")[-1]:
             calls.append(I.run)
             return Frame(("trimmed",))
         return NotImplemented
 
-    I = Interp(db, call_hook=hook)
+    I = Interp(db, call_hook=hook, decide=assume(("hascol", TR, "stream")))
     RK = T.P("RANK")
     runs = I.explore(ref3, lambda I: {"self": Obj("self", cls=(m, "Trace"), attrs={"traces": {RK: Frame(TR)}, "symbol_table": Obj("symtab", cls=(st, "TraceSymbolTable"))}),
                                       "include_last_profiler_step": T.P("include_last_profiler_step")})
@@ -214,7 +256,7 @@ def check_trim_guard(db, chk, rule: str) -> None:
     summary = []
     for r in runs:
         tr = r.env["self"].attrs["traces"].get(RK)
-        trimmed = isinstance(tr, Frame) and tr.base == ("trimmed",)
+        trimmed = isinstance(tr, Frame) and (tr.base == ("trimmed",) or (per_rank is None and isinstance(tr.base, tuple) and tr.base and tr.base[0] == "concat"))
         summary.append((T.show(r.cond())[:200], trimmed))
     lens = [c for c, t in summary]
     ok = len(summary) == 3 and sum(1 for c, t in summary if t) == 1
@@ -231,6 +273,8 @@ def check_trim_guard(db, chk, rule: str) -> None:
                     return n
                 if t[0] == "truthy":
                     return n > 0
+                if t[0] == "hascol":
+                    return True
                 raise T.Unknown(t)
             hits = [tr for r, (c, tr) in zip(runs, summary) if all(T.evaluate(p_, leaf) for p_ in r.path)]
             table[n] = hits
@@ -249,10 +293,10 @@ def check_step_set(db, chk, rule: str) -> None:
     m = db.mod(TM)
     f = m.func("Trace._filter_irrelevant_gpu_kernels")
     where = m.loc(f)
-    inner = m.func(find_per_rank_trim(m, db))
+    inner = m.func(_per_rank_or_none(m, db) or "Trace._filter_irrelevant_gpu_kernels")
     # the closure variable (or parameter) the per-rank helper tests names against
     cand = set()
-    for n in ast.walk(inner):
+    for n in ast.walk(H.inline_helpers(m, inner)):          # (private helpers written out: a helper's parameter becomes the caller's argument)
         if isinstance(n, ast.Call) and isinstance(n.func, ast.Attribute) and n.func.attr == "isin" and n.args and isinstance(n.args[0], ast.Name):
             cand.add(n.args[0].id)
     # a parameter of the helper: follow it to the argument passed by the caller
